@@ -383,7 +383,9 @@ static int inc_open (char *buf, const char *name) {
   char *p;
 
   inc_lexically_normal (current_file, name, buf);
-  if ((fd = FILE_OPEN (buf, O_RDONLY)) != -1)
+  /* the normalised name may still end in ".." or contain unresolved ".." components
+   * ("..", "room/../..", "x/..//../y"): never open anything above the mudlib directory */
+  if (legal_path (buf) && (fd = FILE_OPEN (buf, O_RDONLY)) != -1)
     {
       opt_trace (TT_COMPILE|3, "opened (fd %d): \"%s\"", fd, buf);
       return fd;
